@@ -5,6 +5,7 @@
 package main
 
 import (
+	"sync/atomic"
 	"bytes"
 	"crypto/sha512"
 	"encoding/json"
@@ -301,7 +302,81 @@ func runC16Race(t *testing.T, cases []map[string]interface{}, ev *vEvents) {
 		}(k)
 	}
 	wg.Wait()
-	ev.Emit(map[string]interface{}{"i": 0, "ev": "Soak", "requests": 8 * rounds})
+	total := 8 * rounds
+	// phase B: Okta as password backend and second factor, sign-ins that expire almost at once (the authenticator evicts
+	// expired sign-ins while other requests add new ones)
+	go2 := newSessWorld([]string{"okta"})
+	defer go2.w.Close()
+	go2.okta.ttl = 900 * time.Millisecond
+	var wg2 syncWaitGroup
+	for k := 0; k < 8; k++ {
+		wg2.Add(1)
+		go func(k int) {
+			defer wg2.Done()
+			rng := newRand(seed*1000 + int64(k))
+			ck := map[string]string{}
+			for n := 0; n < rounds/2; n++ {
+				u := users[rng.Intn(2)]
+				switch rng.Intn(5) {
+				case 0, 1:
+					r := go2.w.Do(vReq{Method: "POST", Path: "/api/v0/login", Form: url.Values{"username": {u}, "password": {"pw-" + u}}})
+					if c := r.Cookie(authCookieName); c != nil {
+						ck[u] = c.Value
+					}
+				case 2:
+					go2.w.Do(vReq{Method: "POST", Path: okta2FAauthPath, Cookies: map[string]string{authCookieName: ck[u]}, Form: url.Values{"OTP": {"111111"}}})
+				case 3:
+					go2.w.Do(vReq{Method: "POST", Path: oktaPushStartPath, Cookies: map[string]string{authCookieName: ck[u]}, Form: url.Values{}})
+				case 4:
+					go2.w.Do(vReq{Method: "POST", Path: oktaPollCheckPath, Cookies: map[string]string{authCookieName: ck[u]}, Form: url.Values{}})
+				}
+				if n%40 == 39 {
+					time.Sleep(time.Second) // let the sign-ins of this worker's users expire
+				}
+			}
+		}(k)
+	}
+	wg2.Wait()
+	total += 8 * (rounds / 2)
+	// phase C: a sealed daemon receiving the right passphrase from several operators at once while requests arrive
+	evn := 1
+	for round := 0; round < 6; round++ {
+		sw := newSealedWorld("ed")
+		var wg3 syncWaitGroup
+		var ok200 int64
+		start := make(chan struct{})
+		for k := 0; k < 4; k++ {
+			wg3.Add(2)
+			go func() {
+				defer wg3.Done()
+				<-start
+				if r := sw.inject("right", true, true); r.Status == 200 {
+					atomic.AddInt64(&ok200, 1)
+				}
+			}()
+			go func(k int) {
+				defer wg3.Done()
+				<-start
+				for n := 0; n < 6; n++ {
+					sw.DoFunc(sw.st.readyzHandler, vReq{Method: "GET", Path: readyzPath})
+					sw.Do(vReq{Method: "GET", Path: "/public/x509ca"})
+					sw.Do(vReq{Method: "POST", Path: "/api/v0/login", Form: url.Values{"username": {"alice"}, "password": {"pw-alice"}}})
+				}
+			}(k)
+		}
+		close(start)
+		wg3.Wait()
+		sw.st.Mutex.Lock()
+		ncas := len(sw.st.caCertDer)
+		sw.st.Mutex.Unlock()
+		// served one after another, exactly one injection unseals (200) and the others find the daemon unsealed; an
+		// Ed25519 + primary key file pair yields two CA certificates, once
+		ev.Emit(map[string]interface{}{"i": evn, "ev": "UnsealRound", "injectors": 4, "ok200": int(ok200), "cas": ncas, "casOnce": 2})
+		evn++
+		sw.Close()
+		total += 4 * 19
+	}
+	ev.Emit(map[string]interface{}{"i": 0, "ev": "Soak", "requests": total})
 }
 
 type syncWaitGroup = sync.WaitGroup
